@@ -75,6 +75,10 @@ class RefreshAheadBackend(AllowanceCacheBackend):
         return len(self.d)
 
 
+class Aborted(BaseException):
+    """an abort from outside the library (not an Exception)"""
+
+
 class CountingStorage:
     """proxy that counts decision look-ups of the underlying storage"""
     def __init__(self, inner):
@@ -243,17 +247,36 @@ def run(ctx):
                     best = [o for o in options if o[0]] or options
                     _, victim, mut, flipped = pick(rng, best)
 
-                    def land(victim=victim, flipped=flipped, mut=mut):
-                        if mut == 'delete':
-                            st.delete(victim)
-                            present.pop(victim, None)
-                        else:
-                            st.update(flipped)
+                    # ... sometimes followed by a second one, so that an even number of invalidations happens while
+                    # the decision is in flight (an invalidation marker that only toggles would come back to where it was)
+                    second = pick(rng, options) if rng.random() < 0.45 else None
+
+                    def land(victim=victim, flipped=flipped, mut=mut, second=second):
+                        for (_c, v2, m2, f2) in [(None, victim, mut, flipped)] + ([second] if second else []):
+                            if m2 == 'delete':
+                                st.delete(v2)
+                                present.pop(v2, None)
+                            else:
+                                st.update(f2)
                     counting.hook = land
                     reask = qa           # and the same inquiry is asked again next
                     fresh_before = Guard(raw, polcase.make_checker(k)).is_allowed(proto.build_inquiry(qa))
                     inflight = True
                     human.append('(next ask: %s %s lands while it is in flight)' % (mut, victim))
+                elif fo is None and rng.random() < 0.04:
+                    # the decision is aborted from outside (an exception that is not an Exception: interrupt, watchdog,
+                    # cancellation) while it is in flight: nothing of it may be remembered; the same inquiry comes next
+                    def abort():
+                        raise Aborted()
+                    counting.hook = abort
+                    try:
+                        guard.is_allowed(qobj)
+                    except Aborted:
+                        pass
+                    counting.hook = None
+                    reask = qa
+                    human.append('(ask %r aborted in flight)' % (qa,))
+                    continue
                 a = guard.is_allowed(qobj)
                 counting.hook = None
                 cache_empty = False
